@@ -65,6 +65,14 @@ impl<C: CommentsParser> MdParser<C> {
 
             let mut html_comments = self.html_comments_parser.parse(html_block);
             for mut comment in &mut html_comments {
+                // An HTML block inside a list item or a block quote does not start in the first
+                // column: positions on the block's first line are relative to where it starts.
+                if comment.position_range.start.line == 1 {
+                    comment.position_range.start.character += node.start_position().column;
+                }
+                if comment.position_range.end.line == 1 {
+                    comment.position_range.end.character += node.start_position().column;
+                }
                 comment.position_range.start.line += node.start_position().row;
                 comment.position_range.end.line += node.start_position().row;
                 comment.source_range.start += node.start_byte();
@@ -188,6 +196,26 @@ Some text here 3
             ]
         );
 
+        Ok(())
+    }
+
+    #[test]
+    fn html_comments_in_block_quotes_and_list_items_have_source_columns() -> anyhow::Result<()> {
+        let mut parser = parser()?;
+
+        let content = "# Header\n\n> <!-- <block name=\"quoted\"> -->\n> text\n>\n> <!-- </block> -->\n\n- item\n\n  <!-- <block name=\"listed\"> -->\n  text\n\n  <!-- </block> -->\n";
+        let blocks = parser.parse(content)?;
+
+        assert_eq!(blocks.len(), 2);
+        // `<` of the start tags: line 3 / line 10, byte column 8 (after `> <!-- ` / `  <!-- `).
+        assert_eq!(
+            *blocks[0].start_tag_position_range.start(),
+            Position::new(3, 8)
+        );
+        assert_eq!(
+            *blocks[1].start_tag_position_range.start(),
+            Position::new(10, 8)
+        );
         Ok(())
     }
 
